@@ -11,7 +11,7 @@ from ..build import AnalysisBroken
 from ..lib_c09 import (PInterp, PARAM, OTHER, literals_compared, make_equal_model, make_find_arg_model, m_copy_token,
                        copy_lazy_field, cls_of, chain, as_obj, mk_hideset, hideset_names, mk_tokens, m_copy_token_concrete,
                        strip_ids)
-from ..lib_c09x import Desc, show, calls_in, explore_expand, KNOWN_CALLS, explore_subst, SubstPath
+from ..lib_c09x import Desc, show, calls_in, explore_expand, KNOWN_CALLS, explore_subst, SubstPath, explore_skip_arms, new_token_flag_facts, SKIP_KINDS
 from ..lib_c09 import Agg, NotConcrete
 
 U = 'preprocess.c'
@@ -47,6 +47,7 @@ def run(P, rep, tier):
     part('R09.3', lambda: r_arg_lookup(P, u, rep))
     part('R09.7', lambda: r_hideset_prims(P, u, rep))
     part('R09.9', lambda: r_stringize(P, u, rep))
+    part('R09.11', lambda: r_white_space(P, rep))
     if r is not None:
         part('R09.8', lambda: r_builtins(P, u, rep, r[0], r[1]))
         part('R09.10', lambda: r_lookup(P, u, rep))
@@ -1056,6 +1057,84 @@ def r_definition(P, u, rep):
     A.flush()
     if kinds != {0, 1}:
         rep.undecided('R09.6', '%s:%s:kinds' % (U, fn), 'not both macro kinds are produced (saw is_objlike in %s)' % sorted(kinds), where=where)
+
+
+def r_white_space(P, rep):
+    """The white-space facts that the expansion clauses consume are produced by the tokenizer: R09.6 reads has_space of the
+    token after the macro name, R09.9 (join_tokens) reads has_space of every argument token. Translation phase 3 makes a
+    comment one space character, so every arm of tokenize() that consumes input without making a token is white space."""
+    TU = 'tokenize.c'
+    tu = P.unit(TU)
+    rep.rule('R09.11', 'white space is recorded for the clauses that consume it (function-like iff "(" follows the name WITHOUT white space; # keeps one space where the argument had white space): every input-skipping arm of tokenize - blank, // comment, /* */ comment - leaves has_space set, a newline leaves at_bol or has_space set, no such arm clears has_space again except the newline arm (which sets at_bol), and new_token stores has_space into the token it makes and clears it for the next one', floor=9)
+    A = Agg(rep)
+    arms, problems = explore_skip_arms(P, tu)
+    for line, text in problems:
+        rep.undecided('R09.11', '%s:tokenize:skip-arm-not-followed' % TU, 'a statement of the tokenizer loop cannot be followed: %s' % text, where='%s:%d' % (TU, line))
+    seen = {}
+    for arm in arms:
+        kind, init, (ab, hs) = arm['kind'], arm['init'], arm['final']
+        if init[0] != 0:
+            continue        # at the beginning of a line: directive recognition, not a clause of this property
+        w = '%s:%d' % (TU, arm['line'])
+        facts = {'path': arm['trail'], 'initial (at_bol, has_space)': init, 'final (at_bol, has_space)': (ab, hs)}
+        seen[kind] = seen.get(kind, 0) + 1
+        hs1 = isinstance(hs, int) and hs == 1
+        ab1 = isinstance(ab, int) and ab == 1
+        if kind == 'newline':
+            A.ob('R09.11', '%s:tokenize:newline-is-white-space' % TU, hs1 or ab1,
+                 'a newline is skipped with neither at_bol nor has_space set afterwards (from flags %s): a directive line does not end, and the line break inside an invocation leaves no trace' % (init,), w, facts)
+            continue
+        if init == (0, 0):
+            A.ob('R09.11', '%s:tokenize:%s-sets-has_space' % (TU, kind), hs1,
+                 'input is skipped (%s) without has_space being set for the next token: a comment is one space character (C11 5.1.1.2 phase 3), so `#define F/**/(x) ...` must define an OBJECT-like macro with body `(x) ...` (here it becomes function-like), and #x of `a/**/+/**/b` must give "a + b" (here "a+b")' % kind, w, facts)
+        else:
+            A.ob('R09.11', '%s:tokenize:%s-keeps-has_space' % (TU, kind), hs1,
+                 'white space already seen is forgotten when more input is skipped (%s): `#define F /**/(x)` becomes function-like, # loses the space' % kind, w, facts)
+    A.flush()
+    for k in SKIP_KINDS:
+        if not seen.get(k):
+            rep.undecided('R09.11', '%s:tokenize:no-%s-arm' % (TU, k), 'the %s-skipping arm of tokenize was not recognised' % k, where='%s:%d' % (TU, tu.fn('tokenize').line))
+    where = '%s:%d' % (TU, tu.fn('new_token').line)
+    nt = new_token_flag_facts(P, tu)
+    for trail, d in nt:
+        rec, clr, v, g = d['has_space']
+        A.ob('R09.11', '%s:new_token:records-has_space' % TU, rec,
+             'new_token does not store the tokenizer\'s has_space flag into the token (stores %r): read_macro_definition and join_tokens see no white space' % (v,), where, {'path': trail})
+        A.ob('R09.11', '%s:new_token:clears-has_space' % TU, clr,
+             'new_token leaves has_space set (%r) for the following token: `#define F (x)`-style white space is attributed to the wrong token (`a +b` stringizes as "a + b")' % (g,), where, {'path': trail})
+    A.flush()
+    if not nt:
+        rep.undecided('R09.11', '%s:new_token:no-path' % TU, 'new_token has no returning path', where=where)
+    # -- a line break inside an argument is white space for # (C11 6.10.3p10, 6.10.3.2p2): join_tokens on the flag states
+    #    the newline arm really leaves behind
+    u = P.unit(U)
+    for f in ('join_tokens', 'read_macro_arg_one', 'read_macro_args', 'copy_token'):
+        if f not in u.functions:
+            raise AnalysisBroken('anchor %s vanished' % f)
+    states = sorted(set(a['final'] for a in arms if a['kind'] == 'newline' and a['init'][0] == 0 and all(isinstance(x, int) for x in a['final'])))
+    rewr = [m.name for f in ('read_macro_arg_one', 'read_macro_args') for b in u.fn(f).walk()
+            if b.kind in ('BinaryOperator', 'CompoundAssignOperator') and b.opcode and b.opcode.endswith('=') and b.opcode not in ('==', '!=', '<=', '>=')
+            for m in [b.inner[0].strip()] if m.kind == 'MemberExpr' and m.name in ('at_bol', 'has_space')]
+    wj = '%s:%d' % (U, u.fn('join_tokens').line)
+    if rewr:
+        rep.undecided('R09.9', '%s:join_tokens:newline-inside-argument' % U, 'the argument reader rewrites %s of the tokens it copies; the rule cannot tell which flag state reaches join_tokens' % sorted(set(rewr)), where=wj)
+    elif not states:
+        rep.undecided('R09.9', '%s:join_tokens:newline-inside-argument' % U, 'the flag state after a skipped newline is not concrete', where=wj)
+    else:
+        eof, ident = u.enums.get('TK_EOF'), u.enums.get('TK_IDENT')
+        it = _conc(P, u, models={'calloc': _m_calloc_buf, 'strncpy': _m_strncpy})
+        for ab, hs in states:
+            toks = mk_tokens([{'loc': 'a'}, {'loc': '+', 'at_bol': ab, 'has_space': hs}, {'loc': 'b'}], eof, ident)
+            ctx, r = _run1ctx(it, 'join_tokens', [toks[0], 0])
+            try:
+                got = _cstr(r)
+            except _Opaque as e:
+                rep.undecided('R09.9', '%s:join_tokens:not-concrete' % U, 'the interpreter cannot follow join_tokens to a concrete string (%s)' % e, where=wj)
+                continue
+            A.ob('R09.9', '%s:join_tokens:newline-inside-argument' % U, got == 'a +b',
+                 'a token that follows a line break inside a macro argument carries (at_bol, has_space) = (%d, %d) out of tokenize(), read_macro_arg_one copies it unchanged, and join_tokens looks at has_space only: #x of `a<newline>+b` gives %r instead of "a +b" (new-line is ordinary white space inside an invocation, C11 6.10.3p10, and white space between argument tokens becomes one space, 6.10.3.2p2)' % (ab, hs, got),
+                 wj, {'token state after newline': (ab, hs), 'got': got})
+        A.flush()
 
 
 def _conc(P, u, **kw):
